@@ -10,7 +10,7 @@ import json, math, os, re
 import lib
 
 PID = "C18"
-THEOREMS = ["Properties_C18.v", "Properties_C18_overflow.v"]
+THEOREMS = ["Properties_C18.v", "Properties_C18_overflow.v", "Properties_C18_rename.v"]
 UBSAN = ["-fsanitize=signed-integer-overflow", "-fno-sanitize-recover=all"]
 # the three builds of harness/c18.cpp
 BUILDS = {"c18": dict(name="c18", srcs=["c18.cpp"]),
